@@ -810,6 +810,7 @@ int mpq_EGlpNumReadStrXc (mpq_t var,
 			if (e_open || !any_dig)
 				bad_exp = 1;
 			e_open = 0;
+			any_dig = 0;							/* the denominator needs a digit of its own */
 			if (exp_sgn)
 				l_exp = -l_exp;
 			if (l_exp > 0)
